@@ -418,10 +418,10 @@ fn add_pltotf_error_context(pl_source: &str, error_message: String, error_point:
         let num_lines = line_index + 1;
         return format!("{error_message} (line {num_lines}).\n...) \n    ...",);
     }
-    let line = pl_source
-        .lines()
-        .nth(line_index)
-        .expect("we know there are line_index+1 lines in the file");
+    // If the file ends with a newline and the error is reported past the end of the file
+    // (some errors are reported one character after their span), the line is empty and
+    // not returned by the lines iterator.
+    let line = pl_source.lines().nth(line_index).unwrap_or("");
     let start = &line[..line_offset];
     let end = &line[line_offset..];
     let line_number = line_index + 1;
